@@ -19,6 +19,7 @@
      open for writing/creating, write to a descriptor other than 0, fsync, ftruncate, utimes), counted per process
    SYSSHIM_LOGDATA=<n> : bytes of data shown per logged write (default 64); SYSSHIM_LOGREAD=<fd,fd> : log reads on these
    SYSSHIM_GATEALL=1 (with SYSSHIM_GATE): every unlink/link/rename/open-for-writing also stops at the gate ("mut")
+   faults: also stat/lstat ("stat:<pathsub>:<errno>[:nth]"); read rules match "fd<N> <path the descriptor was opened with>"
    The shim changes nothing unless told to. */
 #define _GNU_SOURCE
 #include <dlfcn.h>
@@ -76,8 +77,12 @@ static void init_rules(void) {
       strncpy(krule.call, buf, 15); strncpy(krule.sub, b, 127); krule.nth = atoi(c); krule.seen = 0; have_k = 1; } }
   }
 }
-static void slog(const char *fmt, ...) {
-  char buf[20000]; int n; va_list ap;
+static void slog_inner(const char *fmt, va_list ap);
+static void slog(const char *fmt, ...) {            /* never disturbs errno (a failing log open must not change what the program sees) */
+  int se = errno; va_list ap; va_start(ap, fmt); slog_inner(fmt, ap); va_end(ap); errno = se;
+}
+static void slog_inner(const char *fmt, va_list ap) {
+  char buf[20000]; int n;
   if (logfd == -2) {
     const char *p = getenv("SYSSHIM_LOG");
     int (*ropen)(const char *, int, ...) = dlsym(RTLD_NEXT, "open");
@@ -86,11 +91,12 @@ static void slog(const char *fmt, ...) {
   }
   if (logfd < 0) return;
   { pid_t (*rgetpid)(void) = dlsym(RTLD_NEXT, "getpid"); n = snprintf(buf, sizeof buf, "%d ", (int) rgetpid()); }
-  va_start(ap, fmt); n += vsnprintf(buf + n, sizeof buf - n - 1, fmt, ap); va_end(ap);
+  n += vsnprintf(buf + n, sizeof buf - n - 1, fmt, ap);
   if (n > (int) sizeof buf - 2) n = sizeof buf - 2;
   buf[n++] = '\n';
   { ssize_t (*rwrite)(int, const void *, size_t) = dlsym(RTLD_NEXT, "write"); rwrite(logfd, buf, n); }
 }
+static char *fdpath[1024];           /* path each descriptor was opened with (for path-matched read faults) */
 static volatile long killat = -2, mutcount = 0;
 /* SYSSHIM_KILLSIG=1: on SIGUSR2 the process dies before its NEXT mutating call, so that every call it completed
    is in the log (a SIGKILL at a random instant can land between a call and its log line) */
@@ -185,15 +191,19 @@ int open(const char *p, int fl, ...) { REAL(open); mode_t m = 0; int e, r; int t
   if (trg) gate((fl & O_ACCMODE) == O_WRONLY ? "openw" : "openr", p);
   if ((fl & O_ACCMODE) != O_RDONLY || (fl & O_CREAT)) mutating("open", p);
   e = fault("open", p);
+  if (!e && (fl & O_ACCMODE) == O_RDONLY) e = fault("openr", p);       /* "openr": read-only opens only */
   if (e) { errno = e; slog("open %s %o = -1 %d INJECTED", p, fl, e); return -1; }
-  r = real(p, fl, m); { int se = errno; slog("open %s %o = %d %d", p, fl, r, r < 0 ? se : 0); if (trg && r >= 0) { trig_fd = r; trig_w = (fl & O_ACCMODE) == O_WRONLY; } errno = se; } return r; }
+  r = real(p, fl, m); { int se = errno; slog("open %s %o = %d %d", p, fl, r, r < 0 ? se : 0); if (trg && r >= 0) { trig_fd = r; trig_w = (fl & O_ACCMODE) == O_WRONLY; }
+    if (r >= 0 && r < 1024) { if (fdpath[r]) free(fdpath[r]); fdpath[r] = strdup(p); } errno = se; } return r; }
 int open64(const char *p, int fl, ...) { REAL(open64); mode_t m = 0; int e, r; int trg = is_trigger(p);
   if (fl & O_CREAT) { va_list ap; va_start(ap, fl); m = va_arg(ap, mode_t); va_end(ap); }
   if (trg) gate((fl & O_ACCMODE) == O_WRONLY ? "openw" : "openr", p);
   if ((fl & O_ACCMODE) != O_RDONLY || (fl & O_CREAT)) mutating("open", p);
   e = fault("open", p);
+  if (!e && (fl & O_ACCMODE) == O_RDONLY) e = fault("openr", p);       /* "openr": read-only opens only */
   if (e) { errno = e; slog("open %s %o = -1 %d INJECTED", p, fl, e); return -1; }
-  r = real(p, fl, m); { int se = errno; slog("open %s %o = %d %d", p, fl, r, r < 0 ? se : 0); if (trg && r >= 0) { trig_fd = r; trig_w = (fl & O_ACCMODE) == O_WRONLY; } errno = se; } return r; }
+  r = real(p, fl, m); { int se = errno; slog("open %s %o = %d %d", p, fl, r, r < 0 ? se : 0); if (trg && r >= 0) { trig_fd = r; trig_w = (fl & O_ACCMODE) == O_WRONLY; }
+    if (r >= 0 && r < 1024) { if (fdpath[r]) free(fdpath[r]); fdpath[r] = strdup(p); } errno = se; } return r; }
 int fsync(int fd) { REAL(fsync); char nm[32]; int e, r; snprintf(nm, sizeof nm, "fd%d", fd); e = fault("fsync", nm);
   if (e) { errno = e; slog("fsync %d = -1 %d INJECTED", fd, e); return -1; }
   r = real(fd); { int se = errno; slog("fsync %d = %d %d", fd, r, r ? se : 0); errno = se; } after("fsync", nm); return r; }
@@ -206,6 +216,7 @@ int flock(int fd, int op) { REAL(flock); char nm[32]; int e, r; snprintf(nm, siz
   r = real(fd, op); { int se = errno; slog("flock %d %d = %d %d", fd, op, r, r ? se : 0); errno = se; } return r; }
 int close(int fd) { REAL(close); char nm[32]; int e, r;
   if (fd == logfd) return 0;
+  if (fd >= 0 && fd < 1024 && fdpath[fd]) { free(fdpath[fd]); fdpath[fd] = 0; }
   if (fd == gate_fd && fd >= 0) return 0;
   if (fd == trig_fd && fd >= 0) { gate(trig_w ? "closew" : "closer", "lock/trigger"); trig_fd = -1; }
   if (nrules > 0) { snprintf(nm, sizeof nm, "fd%d", fd); e = fault("close", nm);
@@ -232,7 +243,9 @@ int setuid(uid_t u) { REAL(setuid); int e = fault("setuid", ""), r;
   r = real(u); { int se = errno; slog("setuid %u = %d %d", (unsigned) u, r, r ? se : 0); errno = se; } return r; }
 int execv(const char *path, char *const argv[]) { REAL(execv); slog("execv %s uid=%u gid=%u", path, (unsigned) getuid(), (unsigned) getgid()); return real(path, argv); }
 unsigned int alarm(unsigned int secs) { REAL(alarm); slog("alarm %u", secs); return real(secs); }
-ssize_t read(int fd, void *buf, size_t n) { REAL(read); char nm[32]; int e; snprintf(nm, sizeof nm, "fd%d", fd);
+ssize_t read(int fd, void *buf, size_t n) { REAL(read); char nm[300]; int e;
+  /* a read rule matches "fd<N>" and, for descriptors opened through this shim, the path: "fd11 local/7/123" */
+  snprintf(nm, sizeof nm, "fd%d %s", fd, (fd >= 0 && fd < 1024 && fdpath[fd]) ? fdpath[fd] : "");
   if (nrules > 0 || nrules < 0 || have_k) { e = fault("read", nm); if (e) { errno = e; slog("read %d = -1 %d INJECTED", fd, e); return -1; } }
   { static int rfds[8], nr = -1; ssize_t r; int i, hit = 0;
     if (nr < 0) { const char *x = getenv("SYSSHIM_LOGREAD"); nr = 0; while (x && *x && nr < 8) { rfds[nr++] = atoi(x); x = strchr(x, ','); if (x) x++; } }
@@ -244,6 +257,10 @@ ssize_t read(int fd, void *buf, size_t n) { REAL(read); char nm[32]; int e; snpr
     return r; } }
 off_t lseek(int fd, off_t off, int wh) { REAL(lseek); off_t r = real(fd, off, wh); int se = errno; if (fd >= 3) slog("lseek %d %ld %d = %ld", fd, (long) off, wh, (long) r); errno = se; return r; }
 off_t lseek64(int fd, off_t off, int wh) { REAL(lseek64); off_t r = real(fd, off, wh); int se = errno; if (fd >= 3) slog("lseek %d %ld %d = %ld", fd, (long) off, wh, (long) r); errno = se; return r; }
+int stat(const char *p, struct stat *st) { REAL(stat); int e = fault("stat", p);
+  if (e) { errno = e; slog("stat %s = -1 %d INJECTED", p, e); return -1; } return real(p, st); }
+int lstat(const char *p, struct stat *st) { REAL(lstat); int e = fault("stat", p);
+  if (e) { errno = e; slog("lstat %s = -1 %d INJECTED", p, e); return -1; } return real(p, st); }
 int utimes(const char *p, const struct timeval tv[2]) { REAL(utimes); int e = fault("utimes", p), r;
   if (e) { errno = e; slog("utimes %s = -1 %d INJECTED", p, e); return -1; }
   r = real(p, tv); { int se = errno; slog("utimes %s %ld = %d %d", p, tv ? (long) tv[1].tv_sec : -1L, r, r ? se : 0); errno = se; } return r; }
